@@ -955,6 +955,7 @@ def diversify(
 ):
 
     for i in numba.prange(indices.shape[0]):
+        local_rng_state = rng_state + i
 
         new_indices = [indices[i, 0]]
         new_distances = [distances[i, 0]]
@@ -978,7 +979,7 @@ def diversify(
 
                 d = dist(from_ind, from_data, to_ind, to_data)
                 if new_distances[k] > FLOAT32_EPS and d < distances[i, j]:
-                    if tau_rand(rng_state) < prune_probability:
+                    if tau_rand(local_rng_state) < prune_probability:
                         flag = False
                         break
 
@@ -1013,6 +1014,7 @@ def diversify_csr(
     n_nodes = graph_indptr.shape[0] - 1
 
     for i in numba.prange(n_nodes):
+        local_rng_state = rng_state + i
 
         current_indices = graph_indices[graph_indptr[i] : graph_indptr[i + 1]]
         current_data = graph_data[graph_indptr[i] : graph_indptr[i + 1]]
@@ -1040,7 +1042,7 @@ def diversify_csr(
                     d = dist(from_inds, from_data, to_inds, to_data)
 
                     if current_data[l] > FLOAT32_EPS and d < current_data[j]:
-                        if tau_rand(rng_state) < prune_probability:
+                        if tau_rand(local_rng_state) < prune_probability:
                             retained[j] = 0
                             break
 
